@@ -22,3 +22,16 @@ func VerifNewConfigForks(title string, precision int64, minerExecs []string, for
 		forks:          &Forks{forks: forks},
 	}
 }
+
+// VerifSetMver sets a multi-version configuration value (same value at every height).
+func VerifSetMver(c *Chain33Config, key string, value interface{}) {
+	if c.mver == nil {
+		c.mver = &mversion{data: map[string]interface{}{}, version: map[string]*versionList{}}
+	}
+	c.mver.data[key] = value
+}
+
+// VerifSetChainConfig sets a chain configuration item (cfg.G / IsEnable / GInt ...).
+func VerifSetChainConfig(c *Chain33Config, key string, value interface{}) {
+	c.chainConfig[key] = value
+}
